@@ -21,7 +21,7 @@ EXPLANATION = (
     'every recover override advances both counters; (d) the seed is tested '
     'with `is None` on the setup and the replay path alike.  Equality of '
     'recovered and uninterrupted state at every crash point is not decided.')
-FLOORS = {'C15.a': 1, 'C15.b': 3, 'C15.c': 1, 'C15.d': 1, 'C15.z': 2}
+FLOORS = {'C15.a': 1, 'C15.b': 3, 'C15.c': 1, 'C15.d': 1, 'C15.e': 2, 'C15.z': 2}
 FILES = ['pyglove/core/geno/dna_generator.py', 'pyglove/core/geno/sweeping.py',
          'pyglove/core/geno/random.py', 'pyglove/core/geno/deduping.py',
          'pyglove/ext/evolution/base.py', 'pyglove/ext/evolution/regularized_evolution.py',
@@ -178,6 +178,143 @@ def rule_b(ctx):
          'the generator is no longer advanced on replay')
 
 
+SPEC_SERVICES = ('next_dna', 'iter_dna', 'spec', 'named_decisions', 'decision_ids', 'is_subchoice', 'multi_choice_spec',
+                 'literal_value', 'to_dict')
+
+
+def rule_e(ctx):
+  idx = ctx.index
+  ev = idx.func('pyglove.ext.evolution.base.Evolution.recover')
+  fb = idx.func('pyglove.ext.evolution.base.Evolution._feedback')
+  # (1) per restored individual, the population update runs inside the replay
+  # loop, as it runs per feedback on the live path
+  cls = idx.enclosing_class(ev)
+  def helper_of(call):
+    d = A.call_name(call) or ''
+    return cls.methods.get(d[5:]) if d.startswith('self.') and cls is not None else None
+  def htext(call):
+    h = helper_of(call)
+    return A.unparse(h.node, 20000) if h is not None else ''
+  def appends(k):
+    return k.ast is not None and any(A.call_name(c) == 'self._population.append' or
+                                     'self._population.append(' in htext(c) for c in k.calls())
+  def upd(k):
+    return (k.kind == 'test' and A.unparse(k.ast) == 'self._population_update') or (k.ast is not None and any(
+        A.call_name(c) == 'self._population_update' or 'self._population_update(' in htext(c) for c in k.calls()))
+  def check_after_append(g, a, to, where):
+    if any(helper_of(c) is not None and 'self._population.append(' in htext(c) for c in a.calls()):
+      # append and update live in one helper: decide it there
+      out = []
+      for c in a.calls():
+        h = helper_of(c)
+        if h is not None and 'self._population.append(' in htext(c):
+          gh = C.cfg_of(h.node)
+          for a2 in [k for k in gh.nodes if k.ast is not None and any(A.call_name(cc) == 'self._population.append' for cc in k.calls())]:
+            w = gh.can_skip(a2, lambda n: n is not a2 and upd(n))
+            if w is not None:
+              out.append(f'{h.name}: after the append a path returns without population_update: {w}')
+      return out
+    w = g.can_skip(a, lambda n: n is not a and upd(n), to=to)
+    return [f'{where}: after line {a.ast.lineno} the next history item is reached without population_update: {w}'] if w is not None else []
+  g = C.cfg_of(ev.node)
+  heads = [k for k in g.nodes if k.kind == 'iter']
+  apps = [k for k in g.nodes if appends(k)]
+  problems = []
+  if not heads or not apps:
+    problems.append('replay loop / population append not found')
+  else:
+    for a in apps:
+      problems += check_after_append(g, a, heads[0], 'recover')
+  ctx.ob('C15.e', ev.fq + '#update-per-individual', not problems,
+         'recovery applies population_update once per restored individual (inside the replay loop), like the '
+         'live feedback path', ev.loc, '; '.join(problems))
+  # (2) thresholds: the live path tests before the counter is advanced (size - 1);
+  # recovery tests after (no offset)
+  SIZE = '_init_population_size'
+  def marks(st):
+    if isinstance(st, ast.Assign) and A.unparse(st.targets[0]) == 'self._population_initialized' \
+        and A.unparse(st.value) == 'True':
+      return True
+    if isinstance(st, ast.Expr) and isinstance(st.value, ast.Call):
+      h = helper_of(st.value)
+      return h is not None and any(marks(x) for x in ast.walk(h.node) if isinstance(x, ast.Assign))
+    return False
+  def guards_of_init(fn):
+    """Per marking statement: the tests of the enclosing `if`s, with private
+    predicate helpers and local aliases of the size expanded."""
+    out = []
+    def visit(stmts, tests):
+      for st in stmts:
+        if marks(st):
+          out.append(list(tests))
+        if isinstance(st, ast.If):
+          visit(st.body, tests + [st.test])
+          visit(st.orelse, tests)
+        elif isinstance(st, (ast.For, ast.While, ast.With, ast.Try)):
+          for fld in ('body', 'orelse', 'finalbody'):
+            visit(getattr(st, fld, []) or [], tests)
+          for hd in getattr(st, 'handlers', []) or []:
+            visit(hd.body, tests)
+    visit(fn.node.body, [])
+    res = []
+    for tests in out:
+      exprs = list(tests)
+      for t in tests:
+        for c in ast.walk(t):
+          if isinstance(c, ast.Call) and helper_of(c) is not None:
+            exprs += [r.value for r in ast.walk(helper_of(c).node) if isinstance(r, ast.Return) and r.value is not None]
+      res.append((fn, exprs))
+    return res
+  def size_aliases(fn):
+    return {nm for nm in {n.id for n in ast.walk(fn.node) if isinstance(n, ast.Name)}
+            if any(v is not None and SIZE in A.unparse(v) and not any(isinstance(b, ast.BinOp) for b in ast.walk(v))
+                   for _, v in D.defs_of(fn.node, nm))}
+  def mentions_size(e, al):
+    return SIZE in A.unparse(e) or any(isinstance(n, ast.Name) and n.id in al for n in ast.walk(e))
+  def offsets(fn, exprs):
+    al = size_aliases(fn)
+    return [A.unparse(b) for e in exprs for b in ast.walk(e) if isinstance(b, ast.BinOp) and mentions_size(b, al)]
+  grec, gfb = guards_of_init(ev), guards_of_init(fb)
+  problems = []
+  if not grec or not gfb:
+    problems.append('population-initialised guard not found')
+  for fn, exprs in grec:
+    if offsets(fn, exprs):
+      problems.append(f'recover compares with {offsets(fn, exprs)} after the counters were advanced: the population '
+                      f'counts as initialised one feedback early')
+    if not any(mentions_size(e, size_aliases(fn)) for e in exprs):
+      problems.append('recover does not compare with the initial population size')
+  for fn, exprs in gfb:
+    if not any(o.replace(' ', '').endswith('-1') for o in offsets(fn, exprs)):
+      problems.append('_feedback tests before its counter is advanced and must compare with size - 1')
+  ctx.ob('C15.e', ev.fq + '#threshold', not problems,
+         'the "initial population complete" threshold is size-1 before the feedback counter advances (live) and '
+         'size after it advanced (recovery)', ev.loc, '; '.join(problems))
+  # (3) replayed DNAs may be unbound (history persisted as JSON): state restored
+  # from them is never asked for spec services; the generator asks its own spec
+  n = 0
+  for c in generators(idx):
+    rp = c.methods.get('_replay')
+    if rp is None:
+      continue
+    params = [p for p in A.param_names(rp.node) if p != 'self']
+    binds = any((A.call_name(cc) or '').endswith('.use_spec') for cc in A.calls_in(rp.node))
+    fields = [A.unparse(st.targets[0]) for st in ast.walk(rp.node) if isinstance(st, ast.Assign)
+              and isinstance(st.value, ast.Name) and st.value.id in params
+              and A.unparse(st.targets[0]).startswith('self.')]
+    for fld in fields:
+      n += 1
+      bad = []
+      for m in c.methods.values():
+        for node in ast.walk(m.node):
+          if isinstance(node, ast.Attribute) and node.attr in SPEC_SERVICES and A.unparse(node.value) == fld:
+            bad.append(f'{m.name}:{node.lineno} `{A.unparse(node, 60)}`')
+      ctx.ob('C15.e', f'{c.fq}#{fld[5:]}-unbound', binds or not bad,
+             f'`{fld}` is restored from a replayed DNA that may carry no spec; successors are asked of '
+             f'self.dna_spec, not of it', c.loc, '; '.join(bad))
+  # (n == 0 is reported by C15.b: Sweeping replay no longer restores the cursor)
+
+
 def rule_c(ctx):
   idx = ctx.index
   base = idx.func(GEN + '.recover')
@@ -235,5 +372,6 @@ def run(ctx):
   rule_b(ctx)
   rule_c(ctx)
   rule_d(ctx)
+  rule_e(ctx)
   S.optional_truthiness_obligations(ctx, 'C15.z', ['pyglove/core/geno/dna_generator.py', 'pyglove/core/geno/random.py', 'pyglove/core/geno/sweeping.py', 'pyglove/core/geno/deduping.py', 'pyglove/ext/evolution/base.py'], 'seed 0 is a seed, reward 0.0 is a reward')
   ctx.assume('equality of recovered and uninterrupted state at every crash point is not decided')
